@@ -905,7 +905,10 @@ class BaseModel(ModelInterface):
             ix = timepoints
             timepoints = {
                 subj_id: tpts.values
-                for subj_id, tpts in timepoints.to_frame()["TIME"].groupby("ID")
+                # `observed=True`: a categorical ID level may carry categories that are not requested
+                for subj_id, tpts in timepoints.to_frame()["TIME"].groupby(
+                    "ID", observed=True
+                )
             }
         for subj_id, tpts in timepoints.items():
             ip = individual_parameters[subj_id]
